@@ -141,13 +141,15 @@ def lark_rules(text):
     g, _used = load_grammar(text, '<c09>', [], False)
     _terms, rules, _ign = g.compile(['start'], set())
     out = []
+    unknown = {}
 
     def num(name):
         if name == 'start':
             return 0
         m = HELPER.match(name)
         if not m:
-            raise ValueError('unexpected rule name %r' % name)
+            # a helper of a kind the model does not know: keep it (the structural comparison decides)
+            return 100000 + unknown.setdefault(name, len(unknown))
         return int(m.group(1)) + 1
     per_origin = {}
     for r in rules:
@@ -260,3 +262,93 @@ def language_search(e, text, maxlen=6, limit=1200):
         if got != want:
             return (w, want)
     return None
+
+
+# ---- shared-operand family: one operand under two or three different operators in one grammar ------------
+# (the helper-rule cache of EBNF_to_BNF is shared by all operator sites of all rules)
+OPERANDS = {
+    'atom': ('sym', 0),
+    'seqgroup': ('alt', [('seq', [('sym', 0), ('sym', 1)])]),
+    'alt2': ('alt', [('seq', [('sym', 0)]), ('seq', [('sym', 1)])]),
+    'alt3': ('alt', [('seq', [('sym', 0)]), ('seq', [('sym', 1)]), ('seq', [('sym', 2)])]),
+}
+SEP = ('sym', 3)
+
+
+def apply_op(op, x):
+    if op == '?':
+        return ('opt', x)
+    if op == '*':
+        return ('star', x)
+    if op == '+':
+        return ('plus', x)
+    return ('rep', x, op[0], op[1])
+
+
+def op_text(op):
+    return op if isinstance(op, str) else ('~%d' % op[0] if op[0] == op[1] else '~%d..%d' % op)
+
+
+CORE_OPSETS = [('+', (5, 5)), ((4, 5), '+'), ('*', (5, 5)), ((3, 3), '*'), ('?', '+'), ((2, 4), (3, 3)),
+               ('+', '*'), ('*', '?'), ((5, 5), (4, 5)), ('+', (2, 2), '*'), ((4, 5), '?', '+')]
+
+
+def shared_cases(rng, n_random):
+    """(label, grammar text, spec expression, operand expression, number of operator sites)"""
+    out, seen = [], set()
+    small_ops = ['?', '*', '+', (2, 2), (3, 3), (5, 5), (4, 5), (2, 4), (0, 2), (1, 3), (4, 4), (3, 5)]
+    combos = []
+    for i, ops in enumerate(CORE_OPSETS):
+        for kind in ('alt3', ['atom', 'alt2', 'seqgroup'][i % 3]):
+            for o in (ops, tuple(reversed(ops))):
+                for tworules in (False, True):
+                    combos.append((kind, o, tworules))
+    for _ in range(n_random):
+        k = rng.choice([2, 2, 2, 3])
+        ops = tuple(rng.sample(small_ops, k))
+        combos.append((rng.choice(list(OPERANDS)), ops, rng.random() < 0.5))
+    for kind, ops, tworules in combos:
+        x = OPERANDS[kind]
+        width = alt_width(x)
+        if any(not isinstance(o, str) and sum(width ** j for j in range(o[0], o[1] + 1)) > 330 for o in ops):
+            ops = tuple(o if isinstance(o, str) else (min(o[0], 3), min(o[1], 3)) for o in ops)
+            if len(set(ops)) < len(ops):
+                continue
+        items = []
+        for j, o in enumerate(ops):
+            if j:
+                items.append(SEP)
+            items.append(apply_op(o, x))
+        spec = ('alt', [('seq', items)])
+        if not tworules and alt_width(spec) > 350:
+            tworules = True       # in one rule the alternatives of all sites multiply
+        xt = render(x, False)
+        if tworules:
+            names = ['r%d' % j for j in range(len(ops))]
+            body = ' w '.join(names)
+            text = 'start: %s\n' % body + ''.join('%s: %s%s\n' % (nm, xt, op_text(o)) for nm, o in zip(names, ops))
+        else:
+            text = 'start: %s\n' % ' w '.join(xt + op_text(o) for o in ops)
+        text += 'X0: "a"\nX1: "b"\nX2: "c"\nw: "d"\n'
+        if text in seen:
+            continue
+        seen.add(text)
+        out.append(('%s:%s:%s' % (kind, ','.join(op_text(o) for o in ops), 'rules' if tworules else 'one'),
+                    text, spec, x, len(ops), tworules))
+    return out
+
+
+def sample_operand(x, rng):
+    k = x[0]
+    if k == 'sym':
+        return CHARS[x[1]]
+    if k == 'seq':
+        return ''.join(sample_operand(y, rng) for y in x[1])
+    return sample_operand(rng.choice(x[1]), rng)
+
+
+def shared_words(x, nsites, rng):
+    ks = range(0, 8) if nsites == 2 else (0, 1, 2, 3, 5, 6)
+    import itertools
+    for counts in itertools.product(ks, repeat=nsites):
+        yield counts, 'd'.join(''.join(sample_operand(x, rng) for _ in range(k)) for k in counts)
